@@ -4,17 +4,19 @@ COMMON_NOTE = ("Trusted: TLC + CommunityModules, the Go toolchain, the repositor
                "is needed, the finite universes stated in the evidence file. Verdicts come only from traces of the real "
                "code rejected by the TLA+ property-layer specification and reproduced on re-execution.")
 
-CLAIMED = {
-    "C18": dict(
-        text="TLC checks exhaustively (3 keys x 2 values) that the three-map implementation design (I_Delta) refines "
-             "the two-map property spec (Delta); every transition of the abstract state graph is replayed on the real "
-             "DeltaTracker (leg A) and every recorded call + observation of the four views is validated by TLC "
-             "against Delta (leg B), plus seeded random sequences with mutation during iteration, batched iteration "
-             "and failing ReplaceAllIter.",
-        design_ref="3.5 C18",
-        technique="TLA+ spec (Delta/I_Delta) + TLC; TLC-generated behaviours replayed; trace validation with TLC",
-    ),
-}
+import glob
+import importlib
+import os
+import sys
+
+ROOT = os.path.dirname(os.path.dirname(os.path.abspath(__file__)))
+sys.path.insert(0, ROOT)
+CLAIMED = {}
+for f in sorted(glob.glob(os.path.join(ROOT, "checks", "C[0-9][0-9].py"))):
+    pid = os.path.basename(f)[:-3]
+    m = importlib.import_module("checks." + pid)
+    if hasattr(m, "MANIFEST"):
+        CLAIMED[pid] = m.MANIFEST
 
 NOT_YET = "check not built yet in this round; the TLA+ design for it is in DESIGN.md section 3"
 NOT_APPLICABLE = {
